@@ -431,7 +431,13 @@ ApiCfg api_config_for(const std::string &prop, const RunSpec &spec) {
     ApiCfg c; c.prop = prop; c.quick = spec.tier != "thorough";
     base_weights(c);
     auto &w = c.weights;
-    if (prop == "C05") {
+    if (prop == "C04") {
+        // histories that remove packets through an iterator and then prune / re-read (row numbers are never reused)
+        w[O_Prune] = 5; w[O_IterRemove] = 4; w[O_IterNext] = 8; w[O_IterOpen] = 4;
+        if (spec.run % 3 == 2) {   // a third of the histories are iterator-heavy (as in C06), with pruning and loop queries in between
+            w[O_IterOpen] = 10; w[O_IterNext] = 26; w[O_IterUpdate] = 8; w[O_IterRemove] = 10; w[O_IterClose] = 6; w[O_IterAbort] = 2; w[O_LoopAddPacket] = 22; w[O_Prune] = 8; w[O_LoopsAll] = 4; w[O_FrameCreate] = 2; c.max_cifs = 2; c.value_depth = 1;
+        }
+    } else if (prop == "C05") {
         w[O_IterOpen] = w[O_IterNext] = w[O_IterUpdate] = w[O_IterRemove] = w[O_IterClose] = w[O_IterAbort] = 0; w[O_PlantFail] = 16; c.content_clause = "unchanged";
         if (spec.run % 4 == 3) { c.storage_faults = true; w[O_PlantFail] = 3; }
     } else if (prop == "C06") {
